@@ -18,6 +18,20 @@ git apply "$SRC/patch.diff" || { echo "PATCH DOES NOT APPLY"; exit 3; }
 go build ./... >/dev/null 2>&1
 go test -vet=off -count=1 -run 'TestSeedDemo' "$PKG" >/tmp/confirm/$NAME.with.log 2>&1; X=$?
 go test -vet=off -count=1 -skip 'TestSeedDemo' -timeout 25m ./... >/tmp/confirm/$NAME.suite.log 2>&1
+# the suite has load-sensitive tests (gateway TestH*ApexIndex, chord TestConcurrent*): a
+# package that failed in the full run is re-run alone, up to twice, before it counts
+for pkg in $(grep -E "^FAIL\s" /tmp/confirm/$NAME.suite.log | grep -v "\[setup failed\]\|\[build failed\]" | awk '{print $2}' | sort -u); do
+  rel=./${pkg#go.miragespace.co/specter/}
+  okp=1
+  for try in 1 2; do
+    if go test -vet=off -count=1 -skip 'TestSeedDemo' -timeout 10m "$rel" >/tmp/confirm/$NAME.retry.log 2>&1; then okp=0; break; fi
+  done
+  if [ $okp -eq 0 ]; then
+    echo "note: $pkg failed in the full run (load-sensitive) and passed when re-run alone"
+    grep -v -E "^(FAIL|---\s*FAIL|ok|\s)" /tmp/confirm/$NAME.suite.log >/dev/null
+    sed -i "\|$pkg|d;/^--- FAIL/d;/^FAIL$/d" /tmp/confirm/$NAME.suite.log
+  fi
+done
 FAILS=$(grep -E "^(FAIL|---\s*FAIL)" /tmp/confirm/$NAME.suite.log | grep -v "\[setup failed\]\|\[build failed\]" | grep -v "^FAIL$" | head -5)
 echo "seed=$NAME demo_without_change_exit=$W (want 0) demo_with_change_exit=$X (want !=0)"
 echo "suite failures (excluding unbuildable embed packages): ${FAILS:-none}"
